@@ -192,15 +192,21 @@ func (x *Exec) step(s *State, in ssa.Instruction) (cont bool) {
 			s.env[t] = p
 		case *types.Pointer: // pointer to array
 			at := u.Elem().Underlying().(*types.Array)
-			if kindOf(u.Elem()) != kArray {
-				panic(unsupported("index into array of " + typeKey(at.Elem())))
-			}
 			if xv.LV == nil && !x.freshRef[xv.S] {
 				o := x.ob("nil", x.sites[in], "nil dereference of array pointer", in)
 				s.check(o, not(eq(xv.S, "0")))
 			}
-			o := x.ob("bounds", x.sites[in], "array index out of range", in)
-			s.check(o, and(app("<=", "0", iv.S), app("<", iv.S, fmt.Sprintf("%d", at.Len()))))
+			if _, isConst := t.Index.(*ssa.Const); !isConst {
+				o := x.ob("bounds", x.sites[in], "array index out of range", in)
+				s.check(o, and(app("<=", "0", iv.S), app("<", iv.S, fmt.Sprintf("%d", at.Len()))))
+			}
+			if xv.LV == nil {
+				s.env[t] = Value{T: t.Type(), S: "0", LV: &LVal{Elem: true, Base: xv.S, Idx: iv.S, ElemT: at.Elem()}}
+				break
+			}
+			if kindOf(u.Elem()) != kArray {
+				panic(unsupported("index into embedded array of " + typeKey(at.Elem())))
+			}
 			xc := xv
 			s.env[t] = Value{T: t.Type(), S: "0", LV: &LVal{ArrPtr: &xc, Idx: iv.S}}
 		default:
@@ -491,7 +497,21 @@ func (x *Exec) sliceOp(s *State, t *ssa.Slice) {
 		s.check(o, and(app("<=", "0", lo), app("<=", lo, hi), app("<=", hi, xv.F[2].S)))
 		s.env[t] = sliceVal(t.Type(), xv.F[0].S, app("+", xv.F[1].S, lo), app("-", hi, lo))
 	case kRef: // pointer to array
-		panic(unsupported("slice of array pointer"))
+		pt, ok := xv.T.Underlying().(*types.Pointer)
+		if !ok || xv.LV != nil {
+			panic(unsupported("slice of embedded array"))
+		}
+		at := pt.Elem().Underlying().(*types.Array)
+		n := fmt.Sprintf("%d", at.Len())
+		hi := n
+		if t.High != nil {
+			hi = x.val(s, t.High).S
+		}
+		if t.Low != nil || t.High != nil {
+			o := x.ob("bounds", x.sites[t], "slice bounds out of range", t)
+			s.check(o, and(app("<=", "0", lo), app("<=", lo, hi), app("<=", hi, n)))
+		}
+		s.env[t] = sliceVal(t.Type(), xv.S, lo, app("-", hi, lo))
 	default:
 		panic(unsupported("slice of " + typeKey(xv.T)))
 	}
@@ -508,16 +528,7 @@ func (x *Exec) convert(s *State, v Value, to types.Type) Value {
 		}
 		return Value{T: to, S: wrapInt(v.S, to, false)}
 	case kf == kInt && kt == kFP:
-		bits, signed := intBits(v.T)
-		if bits != 64 || !signed {
-			// widen exactly first (value is in range of its own type)
-		}
-		x.note("int->float64 conversion modelled bit-precisely via int2bv/to_fp")
-		bv := app("(_ int2bv 64)", v.S)
-		if signed {
-			return Value{T: to, S: app("(_ to_fp 11 53)", "RNE", bv)}
-		}
-		return Value{T: to, S: app("(_ to_fp_unsigned 11 53)", "RNE", bv)}
+		return Value{T: to, S: x.intToFloat(s, v.S)}
 	case kf == kFP && kt == kFP:
 		return Value{T: to, S: v.S}
 	case kf == kStr && kt == kStr:
@@ -614,12 +625,21 @@ func (x *Exec) next(s *State, t *ssa.Next) {
 	has, _, _, _ := s.mapKeys(mt)
 	present := s.read(s.heap, has, it.mapRef, k)
 	s.assume(imp(ok, and(present, not(sel(it.visited, k)))))
-	// exhaustion: every present key has been visited — instantiated at the
-	// skolem keys of the contract and at the keys the function has named so far
-	for _, c := range x.instKeys(s, ks) {
-		pc := s.read(s.heap, has, it.mapRef, c)
-		s.assume(imp(not(ok), imp(pc, sel(it.visited, c))))
+	// exhaustion: when the iterator is done every present key has been visited.
+	// A universal fact, instantiated at every key term the path mentions.
+	{
+		hp := s.heap.clone()
+		vis := it.visited
+		ref := it.mapRef
+		u := &universal{vars: []AnyVar{{"k", ""}}, types: []types.Type{mt.Key()}, sorts: []string{ks}, done: map[string]bool{}}
+		u.gen = func(st *State, chosen []string) string {
+			pc := st.read(hp, has, ref, chosen[0])
+			return imp(not(ok), imp(pc, sel(vis, chosen[0])))
+		}
+		s.univ = append(s.univ, u)
+		s.instantiate(u)
 	}
+	s.trigger(ks, k)
 	v, _ := s.mapLookup(s.heap, m, k)
 	it.visited = ite(ok, sto(it.visited, k, "true"), it.visited)
 	kv := Value{T: mt.Key(), S: k}
@@ -651,4 +671,33 @@ func (x *Exec) instKeys(s *State, sort string) []string {
 		}
 	}
 	return out
+}
+
+// intToFloat: float64(i). In the default (mathematical-integer) mode the
+// conversion is an uninterpreted function with the facts that hold for
+// round-to-nearest conversion of a 64-bit integer: finite, sign-preserving,
+// monotone (instantiated pairwise). Bit-precise reasoning is available in
+// functions verified in bit-vector mode.
+func (x *Exec) intToFloat(s *State, i string) string {
+	x.declareFun("i2f", []string{sInt}, sFP)
+	x.note("int->float64 conversion is an uninterpreted monotone function in Int mode (bit-precise in bv mode)")
+	t := app("i2f", i)
+	key := "i2f|" + i
+	if s.inst[key] {
+		return t
+	}
+	s.inst[key] = true
+	s.assume(and(not(app("fp.isNaN", t)), not(app("fp.isInfinite", t))))
+	s.assume(imp(app(">=", i, "0"), not(app("fp.isNegative", t))))
+	s.assume(imp(app("<", i, "0"), app("fp.isNegative", t)))
+	s.assume(imp(eq(i, "0"), app("fp.isZero", t)))
+	for k := range s.inst {
+		if len(k) > 4 && k[:4] == "i2f|" && k != key {
+			j := k[4:]
+			u := app("i2f", j)
+			s.assume(imp(app("<=", i, j), app("fp.leq", t, u)))
+			s.assume(imp(app("<=", j, i), app("fp.leq", u, t)))
+		}
+	}
+	return t
 }
